@@ -29,3 +29,20 @@ package config
 //@   loop 5
 //@     invariant 0 <= idx && idx <= len(certExtsOverridden)
 //@     invariant @C08 memf(seq(certExtsOverridden), 0, i) == memf(seq(certExtsOverridden), idx, i)
+
+//@ func (CertificateContent).HashSum returns (res)
+//@   props C13 C10 C11
+//@   uses hash.smt2
+//@   ensures @C13,C10,C11 bytes(res) == digest(1, jsonBytes(deep(typed(blankV(c), "github.com/wokdav/gopki/generator/config.CertificateContent"))))
+
+// Lemmas over the spec of the hash input (no code involved): which edits the hash cannot see, which it must see.
+
+//@ lemma hash_insensitive @C13,C10
+//@   uses hashlemmas.smt2
+//@   goal (forall ((a S_config_CertificateContent) (b S_config_CertificateContent)) (=> (and (sameRelevant a b) (= (vIsStatic a) (vIsStatic b)) (= (vIsSet a) (vIsSet b)) (or (not (vIsStatic a)) (not (vIsSet a)) (and (= (vFrom a) (vFrom b)) (= (vUntil a) (vUntil b))))) (= (blankV a) (blankV b))))
+//@ lemma hash_sensitive_fields @C13
+//@   uses hashlemmas.smt2
+//@   goal (forall ((a S_config_CertificateContent) (b S_config_CertificateContent)) (=> (= (blankV a) (blankV b)) (sameRelevant a b)))
+//@ lemma hash_sensitive_static_validity @C13
+//@   uses hashlemmas.smt2
+//@   goal (forall ((a S_config_CertificateContent) (b S_config_CertificateContent)) (=> (and (vIsStatic a) (vIsSet a) (= (blankV a) (blankV b))) (and (= (vFrom a) (vFrom b)) (= (vUntil a) (vUntil b)))))
